@@ -1,5 +1,6 @@
 import ElkVerif.Model.Ctx
 import ElkVerif.Gen.CtxProbe
+import ElkVerif.Model.Mini.Eval
 /-!
 # C12 — Type-checking verdicts survive meaning-preserving edits
 
@@ -103,5 +104,35 @@ example :
       ⟨7, ⟨true, false, false, false, false, 4⟩, some 1, some 3, [8], [0, 1]⟩ =
       ⟨7, ⟨true, false, false, false, false, 4⟩, some 1, some 3, [8], [0, 1]⟩ := by
   refine ⟨fun _ => rfl, by decide⟩
+
+/-! ### the edit at the level of the reference semantics (stated, NOT proved)
+
+`insert_unused_eval`: inserting, at any position `k` of `main`, a declaration of a variable that
+occurs nowhere in the program, bound to a literal or to a closure literal, does not change what
+the MiniElk reference evaluator prints (for sufficient fuel). A proof needs a simulation between
+stores whose cell numbers are shifted by the extra allocation (closures capture environments of
+cell numbers) and a fuel-monotonicity lemma; it was not done. The real pipeline is tested against
+this statement metamorphically (checks/c12.py). -/
+
+def insertAt {α : Type} (k : Nat) (a : α) (l : List α) : List α := l.take k ++ a :: l.drop k
+
+def IsValueLike : Elk.Mini.Expr → Prop
+  | .int _ | .bool _ | .nil | .str _ | .lam _ _ _ => True
+  | _ => False
+
+/-- the full statement; `Fresh x p` is to be read as "the identifier x occurs nowhere in p" -/
+def InsertUnusedEval (Fresh : String → Elk.Mini.Prog → Prop) : Prop :=
+  ∀ (p : Elk.Mini.Prog) (k : Nat) (x : String) (e : Elk.Mini.Expr), IsValueLike e → Fresh x p →
+    ∀ fuel, (∀ why, (Elk.Mini.runProg fuel p).1 ≠ .stuck why) → (Elk.Mini.runProg fuel p).1 ≠ .timeout →
+      ∃ fuel', (Elk.Mini.runProg fuel' { p with main := insertAt k (.decl x none e) p.main }).2.lines =
+        (Elk.Mini.runProg fuel p).2.lines
+
+/-- one instance of the statement checked by computation (an unused closure inserted between a
+declaration and its use) — a TEST of the statement, not a theorem about all programs. -/
+example :
+    let p : Elk.Mini.Prog := ⟨"M", [], [.decl "a" none (.int 1), .print (.var "a")]⟩
+    (Elk.Mini.runProg 20 { p with main := insertAt 1 (.decl "zz" none (.lam [] .int [.expr (.int 1)])) p.main }).2.lines =
+      (Elk.Mini.runProg 20 p).2.lines := by
+  decide
 
 end Elk.C12
